@@ -1,5 +1,7 @@
 import YowsupVerif.Model.Locks
 import YowsupVerif.Gen.LockCfg
+import YowsupVerif.Model.SendNumbering
+import YowsupVerif.Gen.SendNumberingCfg
 namespace Yow.Drv
 open Yow.Locks
 
@@ -8,6 +10,7 @@ structure LocksSt where
   p : Nat := 0
   st : St := init 1
   specs : List (Nat × UpSpec) := []     -- what happens to each frame on its way up (by frame id)
+  num : Yow.SendNumbering.St := {}      -- message numbering of the downward path
 
 def optNat (t : String) : Option Nat := t.toNat?
 
@@ -23,6 +26,13 @@ def locksStep (s : LocksSt) : List String → LocksSt × String
     | some n, some p => ({ n := n, p := p, st := init n }, "ok")
     | _, _ => (s, "bad-op")
   | ["cfg"] => (s, s!"{Yow.Gen.lockCfg.toLowerFinally} {Yow.Gen.lockCfg.flushFinally}")
+  | ["numreset"] => ({ s with num := {} }, "ok")
+  | ["numsend", size] =>
+    match size.toNat? with
+    | some k =>
+      let r := Yow.SendNumbering.send Yow.Gen.sizeCheckFirst s.num k
+      ({ s with num := r.1 }, s!"{if r.2 then "refused" else "written"} next={r.1.next} wire={",".intercalate (r.1.wire.map toString)}")
+    | none => (s, "bad-op")
   | ["send", f] =>
     let r := sendAt Yow.Gen.lockCfg (optNat f) (s.n - 1) s.st
     ({ s with st := r.1 }, showLocks r.2 r.1)
